@@ -97,13 +97,14 @@ NOT_APPLICABLE = {
 }
 
 # properties that additionally get whole-system runs (Sim H): every N-th run of the batch
-WHOLE = {"C01": 40, "C03": 10, "C07": 20, "C09": 40, "C10": 8, "C14": 20}
+WHOLE = {"C01": 40, "C03": 10, "C07": 20, "C09": 40, "C10": 8, "C14": 20, "C15": 25}
 WHOLE_TECH = " + whole-system runs (every {n}th run): real ExecutionBuilder::add_live -> ExecutionManager::init/run -> SystemBuild::init (stream feed, audit on) -> Engine with LiveClock on the simulated clock, driven only from outside (market stream, scripted exchange clients with delays / silence / errors / lagging unsolicited reports / dropped account connections, operator commands, strategy batches, an exchange without execution link, clock leaps, spurious channel wake-ups), judged after a quiet period from the audit stream, the requests each client received and the engine returned by System::shutdown"
 WHOLE_TEXT = {
     "C01": " Whole-system runs fold the same lifecycle model over the audited end-to-end history: it bounds each order's exchange-reported data after every audit record (on a real replica) and its exact state, in-flight markers included, in the engine handed back.",
     "C03": " Whole-system runs: per exchange the requests the audit stream reports as sent must equal, in order, what that exchange's client received through the real execution manager; requests for an exchange without a link must end the run on a fatal record and reach nobody; refused requests reach nobody; no strategy output while trading is disabled.",
     "C07": " Whole-system runs: per (order, kind) the engine must process exactly as many answers as the exchange client received requests, the client's answer iff it beat the timeout, and once faults stop (2 x (timeout + slowest client) + 1 s of virtual time) no order of the returned engine may still be in flight.",
     "C09": " Whole-system runs: balance snapshots, order reports and public trades stamped up to 500 ms in the past race through the real account / market pipelines; after every audit record (on a replica) each balance and last traded price must carry the greatest exchange timestamp delivered so far with a value delivered at that timestamp, an order's exchange data never moves back while it stays tracked, and the returned engine must hold the same.",
+    "C15": " Whole-system runs: fills arrive on a real account stream and public trades (some stamped in the past) on the market stream of the running system; after every audit record (on a replica) P1 / P2 / P3 are evaluated as above, and the returned engine must hold the replica's positions.",
     "C10": " Whole-system runs: the audit stream handed out by SystemBuild::init must have consecutive sequences, one record per item pushed into the running system, exactly the last record terminal, and a real replica following it must end equal to the engine returned by System::shutdown.",
     "C14": " Whole-system runs: health per link and globally after every audit record (on a replica) and on the returned engine, one on-disconnect call per notice, and exactly one account notice per account connection the exchange client dropped.",
 }
